@@ -608,7 +608,10 @@ func c14History(r *Run, idx int) {
 							continue
 						}
 						for _, g := range seclog {
-							if g.Op != "get" || !g.Found || g.Key != k || g.Val != rd.Val || g.T1 < est || g.T0 > rd.Ret {
+							// the hand-out may fall inside the newer Set (after its refused invalidation, before its
+							// return): legal for the Get that received it, but it puts the older value back into memory,
+							// from where later reads are served
+							if g.Op != "get" || !g.Found || g.Key != k || g.Val != rd.Val || g.T0 < w.Call || g.T0 > rd.Ret {
 								continue
 							}
 							reached, failedDelete := false, false
